@@ -200,7 +200,9 @@ PtySend(st) ==
 \* read_nonblocking(1, 0) / expect(EOF, timeout=0) on a child that never writes
 PtyReadLike(st, ateof, stale) ==
   IF st.closed THEN {R(st, "ValueError")}
-  ELSE IF st.fd = "reused" THEN {[stale EXCEPT !.st = [st EXCEPT !.touched = TRUE]]}
+  \* (only after a deviation) the stale number is polled / read: someone else's descriptor is used
+  ELSE IF st.fd = "reused" THEN {[stale EXCEPT !.st = [st EXCEPT !.touched = TRUE]],
+                                 R([st EXCEPT !.touched = TRUE], "TIMEOUT")}
   ELSE IF st.fd = "closed" THEN {R(st, "OSError"), R(st, "ValueError")}
   ELSE IF ~Live(st)
   THEN LET e == [st EXCEPT !.eof = TRUE]
